@@ -25,6 +25,7 @@ pub const POISON: u8 = 0xDD;
 
 const F_TRACKED: u64 = 1;
 const F_CRATE: u64 = 2; // born inside a crate-call bracket (else: payload bracket)
+const F_ARENA: u64 = 4; // packed mode: bump-allocated back to back, no header, no red zones
 
 pub const BR_NONE: usize = 0;
 pub const BR_CRATE: usize = 1;
@@ -37,6 +38,21 @@ static ACTIVE: AtomicBool = AtomicBool::new(false);
 static BRACKET: AtomicUsize = AtomicUsize::new(0);
 static PASSTHROUGH: AtomicBool = AtomicBool::new(false);
 static LOCK: AtomicBool = AtomicBool::new(false);
+static PACKED: AtomicBool = AtomicBool::new(false);
+static ARENA_OFF: AtomicUsize = AtomicUsize::new(0);
+const ARENA_SIZE: usize = 1 << 22;
+struct ArenaMem(UnsafeCell<[u8; ARENA_SIZE]>);
+unsafe impl Sync for ArenaMem {}
+static ARENA: ArenaMem = ArenaMem(UnsafeCell::new([0; ARENA_SIZE]));
+#[inline]
+fn arena_base() -> usize {
+    ARENA.0.get() as usize
+}
+#[inline]
+fn in_arena(p: usize) -> bool {
+    let b = arena_base();
+    p >= b && p < b + ARENA_SIZE
+}
 
 const CAP: usize = 8192;
 const VCAP: usize = 32;
@@ -202,6 +218,40 @@ unsafe impl GlobalAlloc for Oracle {
         }
         let size = layout.size();
         let align = layout.align();
+        if align == 1 && size > 0 && PACKED.load(Relaxed) {
+            let br = BRACKET.load(Relaxed);
+            if br != BR_NONE && ACTIVE.load(Relaxed) {
+                let off = ARENA_OFF.fetch_add(size, Relaxed);
+                if off + size <= ARENA_SIZE {
+                    let user = (arena_base() + off) as *mut u8;
+                    let serial = SERIAL.fetch_add(1, Relaxed);
+                    let flags = F_TRACKED | F_ARENA | if br == BR_CRATE { F_CRATE } else { 0 };
+                    let g = lock();
+                    let s = st(&g);
+                    if s.n < CAP {
+                        s.table[s.n] = Entry { ptr: user as usize, size, align, serial, state: 1, flags };
+                        s.n += 1;
+                    } else {
+                        s.overflow = true;
+                    }
+                    if br == BR_CRATE {
+                        s.c.allocs += 1;
+                        s.c.bytes += size as u64;
+                        s.c.byte_allocs += 1;
+                    }
+                    s.c.live_blocks += 1;
+                    s.c.live_bytes += size as u64;
+                    s.c.live_buf_bytes += size as u64;
+                    if s.c.live_bytes > s.c.peak_bytes {
+                        s.c.peak_bytes = s.c.live_bytes;
+                    }
+                    if s.c.live_buf_bytes > s.c.peak_buf_bytes {
+                        s.c.peak_buf_bytes = s.c.live_buf_bytes;
+                    }
+                    return user;
+                }
+            }
+        }
         let a = align.max(16);
         let front = round_up(FRONT, a);
         let total = match front.checked_add(size).and_then(|x| x.checked_add(BACK + 1)) {
@@ -271,6 +321,43 @@ unsafe impl GlobalAlloc for Oracle {
     unsafe fn dealloc(&self, ptr: *mut u8, layout: Layout) {
         if PASSTHROUGH.load(Relaxed) {
             return System.dealloc(ptr, layout);
+        }
+        if in_arena(ptr as usize) {
+            let g = lock();
+            let s = st(&g);
+            let mut live = usize::MAX;
+            let mut dead = usize::MAX;
+            let mut i = s.n;
+            while i > 0 {
+                i -= 1;
+                if s.table[i].ptr == ptr as usize && s.table[i].flags & F_ARENA != 0 {
+                    if s.table[i].state == 1 {
+                        live = i;
+                        break;
+                    } else if dead == usize::MAX {
+                        dead = i;
+                    }
+                }
+            }
+            let mk = |kind, size, align, serial| AllocViolation { kind, ptr: ptr as usize, size, align, got_size: layout.size(), got_align: layout.align(), serial };
+            if live == usize::MAX {
+                push_v(s, mk(if dead != usize::MAX { VKind::DoubleFree } else { VKind::WildFree }, 0, 0, 0));
+                return;
+            }
+            let e = s.table[live];
+            if e.size != layout.size() || e.align != layout.align() {
+                push_v(s, mk(VKind::LayoutMismatch, e.size, e.align, e.serial));
+            }
+            if BRACKET.load(Relaxed) == BR_CRATE {
+                s.c.frees += 1;
+            }
+            s.c.live_blocks = s.c.live_blocks.saturating_sub(1);
+            s.c.live_bytes = s.c.live_bytes.saturating_sub(e.size as u64);
+            s.c.live_buf_bytes = s.c.live_buf_bytes.saturating_sub(e.size as u64);
+            s.table[live].state = 2;
+            drop(g);
+            std::ptr::write_bytes(ptr, POISON, e.size);
+            return;
         }
         let magic = hdr_read(ptr, 0);
         if magic != MAGIC_LIVE {
@@ -395,8 +482,14 @@ pub fn installed() -> bool {
 pub fn set_passthrough(on: bool) {
     PASSTHROUGH.store(on, SeqCst);
 }
+/// 0 = even addresses, 1 = odd addresses (both with red zones), 2 = packed: byte buffers are placed
+/// back to back in an arena with no gap at all (as bump / size-class allocators do)
 pub fn set_parity(p: usize) {
     PARITY.store(p & 1, SeqCst);
+    PACKED.store(p == 2, SeqCst);
+}
+pub fn packed() -> bool {
+    PACKED.load(Relaxed)
 }
 pub fn parity() -> usize {
     PARITY.load(Relaxed)
@@ -445,6 +538,7 @@ pub fn case_begin() {
     s.overflow = false;
     s.c = Counters::default();
     drop(g);
+    ARENA_OFF.store(0, SeqCst);
     BRACKET.store(BR_NONE, SeqCst);
     ACTIVE.store(true, SeqCst);
 }
@@ -474,6 +568,22 @@ pub fn case_end() -> CaseEnd {
             s.n -= 1;
             s.table[s.n]
         };
+        if e.flags & F_ARENA != 0 {
+            if e.state == 2 {
+                let body = unsafe { std::slice::from_raw_parts(e.ptr as *const u8, e.size) };
+                if body.iter().any(|&b| b != POISON) {
+                    let g = lock();
+                    let s = unsafe { st(&g) };
+                    push_v(s, AllocViolation { kind: VKind::WriteAfterFree, ptr: e.ptr, size: e.size, align: e.align, got_size: 0, got_align: 0, serial: e.serial });
+                }
+            } else if e.state == 1 {
+                if nleak < leaked_buf.len() {
+                    leaked_buf[nleak] = e;
+                }
+                nleak += 1;
+            }
+            continue;
+        }
         if e.state == 2 {
             unsafe {
                 let p = e.ptr as *mut u8;
@@ -598,7 +708,7 @@ pub fn check_live_redzones() {
         let s = unsafe { st(&g) };
         for i in 0..s.n {
             let e = s.table[i];
-            if e.state != 1 {
+            if e.state != 1 || e.flags & F_ARENA != 0 {
                 continue;
             }
             unsafe {
